@@ -205,7 +205,7 @@ fn apply(rng: &mut Rng, v: &Vocab, kind: &str, its: &mut Vec<(String, Lx)>, tail
             for i in 0..n {
                 if !rng.chance(1, 3) { continue; }
                 let after_op = i > 0 && its[i - 1].1.k == K::Op;
-                let c = pk(rng, &["-- note\n", "--\n", "-- SELECT 'x' FROM;\n", "--é \\\n", "-- a -- b\n"]);
+                let c = pk(rng, &["-- note\n", "--\n", "-- SELECT 'x' FROM; more words\n", "--é \\\n", "-- a -- b\n", "--;x y\n", "-- it's 1.2.3 (\n", "-- x\r\n", "--\t\\'\n"]);
                 let lead = if after_op || rng.chance(1, 2) { " " } else { "" };
                 its[i].0 = format!("{}{}{}", lead, c, if rng.chance(1, 2) { "  " } else { "" });
                 changed = true;
@@ -276,6 +276,7 @@ fn compare(run: &mut Run, b: &Base, kind: &str, vtext: &str, input: &str) -> boo
     if !kind.starts_with("mixed") { run.count(&format!("variant:{}", kind)); }
     let stmt_kind = if b.is_query { "query" } else { "create" };
     let desc = format!("base {:?} variant[{}] {:?}", b.text, kind, vtext);
+    let kind = if kind.starts_with("mixed") { "mixed" } else { kind };
     match parse_debug(vtext) {
         Ok(d) => {
             if d != b.debug {
@@ -352,6 +353,7 @@ pub fn run(p: &Params) -> Run {
         }
         if applied.len() >= 2 {
             let vt = render(&its, &tail);
+            // single kinds are checked above on the same statement: a failure here that no single kind shows is an interaction
             let mixed = format!("mixed[{}]", applied.join("+"));
             run.count("variant:mixed");
             let ok = compare(&mut run, &b, &mixed, &vt, &input);
